@@ -280,6 +280,67 @@ Example C16_cut_nonvacuous :
   e_cut 3 (-2) (mkr "c2" [] "acgtac") = Some (mkr "c2_sub[3..5]" [] "gta") /\ e_cut 7 100 (mkr "c2" [] "acgtac") = None.
 Proof. vm_compute. repeat split; reflexivity. Qed.
 
+(** * Round 3 *)
+(** --cut from:to for every sign of the two bounds (from <> 0, to <> 0): the record keeps exactly the bases at the 1-based
+    positions s..t with s = from (from > 0) or length + from + 1 (from < 0; -1 = the last base; never before base 1) and
+    t = min(to, length) (to > 0) or length + to + 1 (to < 0); it is discarded exactly when that range is empty.
+    False before the fix of the negative start (the start was one base too far: --cut=-1:-1 discarded every record). *)
+Theorem C16_cut_exact_signed : forall from to r, from <> 0 -> to <> 0 -> e_cut from to r = cut_spec_signed from to r.
+Proof. exact cut_signed. Qed.
+(** a record that survives --cut keeps a non-empty range inside the sequence and all its attributes *)
+Theorem C16_cut_range : forall from to r r', from <> 0 -> to <> 0 -> e_cut from to r = Some r' ->
+  1 <= cut_start from (rlen r) <= cut_end to (rlen r) /\ cut_end to (rlen r) <= rlen r /\ rattrs r' = rattrs r.
+Proof. exact cut_signed_range. Qed.
+Example C16_cut_signed_nonvacuous :
+  e_cut (-3) (-1) (mkr "c2" [("k", VS "abc")] "acgtac") = Some (mkr "c2_sub[4..6]" [("k", VS "abc")] "tac") /\
+  e_cut (-1) (-1) (mkr "c2" [] "acgtac") = Some (mkr "c2_sub[6..6]" [] "c") /\
+  e_cut (-100) 3 (mkr "c2" [] "acgtac") = Some (mkr "c2_sub[1..3]" [] "acg") /\ e_cut (-2) 3 (mkr "c2" [] "acgtac") = None.
+Proof. vm_compute. repeat split; reflexivity. Qed.
+
+(** obidistribute --append: runs that append to the same files (inputs bs1 then bs2, any batch sizes) leave in the file
+    of class k exactly what ONE run on the concatenated input writes there (for a class chosen from the record alone) *)
+Theorem C16_distribute_append : forall (A K : Type) (keq : K -> K -> bool) (code : A -> K) (n1 n2 n : nat),
+  (forall a b, keq a b = true <-> a = b) ->
+  forall bs1 bs2 k,
+    List.concat (get_out A K keq k (distribute_batches A K keq code n1 bs1)) ++
+    List.concat (get_out A K keq k (distribute_batches A K keq code n2 bs2)) =
+    List.concat (get_out A K keq k (distribute_batches A K keq code n (bs1 ++ bs2))).
+Proof. exact distribute_append. Qed.
+(** obimultiplex WITHOUT -u (`FilterOn(HasAttribute("obimultiplex_error").Not())`, batch size n) writes on stdout exactly
+    the reads the run WITH -u (`DivideOn(HasAttribute("obimultiplex_error"))`, batch size m) writes there, and these
+    together with the unidentified stream of that run are a permutation of the reads processed *)
+Theorem C16_mux_without_unidentified : forall (n m : nat) (bs : list (list arec)),
+  let err := fun r : arec => has_key "obimultiplex_error" (rattrs r) in
+  List.concat (rebatch arec n (filter_batches arec (holds (p_not (Some err))) bs)) = List.concat (snd (divide_batches arec m err bs)) /\
+  Permutation (List.concat (fst (divide_batches arec m err bs)) ++ List.concat (rebatch arec n (filter_batches arec (holds (p_not (Some err))) bs))) (List.concat bs).
+Proof. exact mux_without_unidentified. Qed.
+(** several input files, --no-order: whatever the order in which the files are taken, obigrep keeps (and discards) the same
+    multiset of records and obiannotate (a per-record edit [f], records possibly dropped) writes the same multiset *)
+Theorem C16_files_any_order : forall A B (p : A -> bool) (f : A -> list B) (files files' : list (list A)),
+  Permutation files files' ->
+  Permutation (filter p (List.concat files')) (filter p (List.concat files)) /\
+  Permutation (filter (fun x => negb (p x)) (List.concat files')) (filter (fun x => negb (p x)) (List.concat files)) /\
+  Permutation (flat_map f (List.concat files')) (flat_map f (List.concat files)).
+Proof. exact files_any_order. Qed.
+(** an edit that cannot be computed on a record: `obiannotate -S a=annotations.k` (a plain attribute name a) writes, for
+    a record that has attribute k, that record with a = its value of k (nothing else changed) and DISCARDS a record that
+    has no attribute k (gval: unknown parameter; the worker chain logs and skips it) *)
+Theorem C16_set_tag_from_attribute : forall (a k : string) (r : arec),
+  String.eqb a "id" = false -> String.eqb a "sequence" = false -> String.eqb a "qualities" = false ->
+  c_impl_annot (mka false None [] [] [] false [(a, EAttr k)] None) r =
+  match lookup k (rattrs r) with
+  | Some v => [set_attrs r (set_key a v (rattrs r))]
+  | None => []
+  end.
+Proof. exact set_tag_from_attribute. Qed.
+Example C16_round3_nonvacuous :
+  let r1 := mkr "a" [("obimultiplex_error", VS "No barcode identified")] "ac" in
+  let r2 := mkr "b" [("sample", VS "s1")] "acg" in let r3 := mkr "c" [("sample", VS "s2")] "acgt" in
+  let err := fun r : arec => has_key "obimultiplex_error" (rattrs r) in
+  List.concat (rebatch arec 2 (filter_batches arec (holds (p_not (Some err))) [[r1; r2]; [r3]])) = [r2; r3] /\
+  List.concat (get_out arec (string * string) pair_eqb ("s1", "") (distribute_batches arec (string * string) pair_eqb (class_code "sample" "" "NA") 1 [[r2; r3]; [r2]])) = [r2; r2].
+Proof. vm_compute. split; reflexivity. Qed.
+
 Print Assumptions C16_grep_exact.
 Print Assumptions C16_grep_exact_invert.
 Print Assumptions C16_effective_iff.
@@ -311,3 +372,9 @@ Print Assumptions C16_filteron_any_schedule.
 Print Assumptions C16_distribute_any_arrival.
 Print Assumptions C16_divide_any_arrival.
 Print Assumptions C16_rename_self_identity.
+Print Assumptions C16_cut_exact_signed.
+Print Assumptions C16_cut_range.
+Print Assumptions C16_distribute_append.
+Print Assumptions C16_mux_without_unidentified.
+Print Assumptions C16_files_any_order.
+Print Assumptions C16_set_tag_from_attribute.
